@@ -1,5 +1,6 @@
 import SqlgrepModel.Lemmas.AggFollowJoin
 import SqlgrepModel.Lemmas.AggFollowExec
+import SqlgrepModel.Lemmas.FollowBridge
 /-
 C11 — incremental (tail -f) results equal a batch run over the same prefix.
 
@@ -75,6 +76,54 @@ theorem select_incremental_eq_batch_extension (O : Oracles) (qy : Query) (idx : 
         | none => []) := by
   rw [runFile_append O qy idx w pre fl {} hstop]
   exact batch_line_extends O qy idx w fl _ es' lo hr hx
+
+/-- **C11 for non-aggregate statements, about the executed follow run** (`Model/ExecI.lean` `runFollowAll`,
+`FollowFileExecutor::execute`, driver kind `followi`; follow mode has no joins): for every k, the follow run stopped
+after k delivered lines — equivalently the follow run over the first k lines — has exactly the outcome of the batch
+run over a file holding the first k lines: the same records in the same order, the same number of lines read, the
+same error. WHERE, DISTINCT and also LIMIT included. Hence the records printed for the k-th delivered line are
+exactly those by which the batch output over k lines extends the batch output over k−1 lines. -/
+theorem select_follow_eq_batch_prefix (O : Oracles) (qy : Query) (q : SelectStmt) (hq : qy.stmt = .select q)
+    (hj : qy.join = none) (lines : List Line) (k : Nat) :
+    runFollowAll O qy (some k) lines = runFollowAll O qy none (lines.take k) ∧
+    runFollowAll O qy none (lines.take k) = runBatch O qy [] [readableFile (lines.take k)] none :=
+  ⟨runFollowAll_stopAt O qy k lines, runFollowAll_select_eq_runBatch O qy q hq hj (lines.take k)⟩
+
+/-- **the same at engine level, joins included** (line-at-a-time execution with update + result over a loaded
+join index — what the `incr` driver executes, `C06.incr_driver_is_feedLines`): for a non-aggregate statement without
+LIMIT (DISTINCT or not, INNER/OUTER JOIN with any number of partners) the batch output over the first k lines is
+the concatenation of the records of the first k incremental answers (`piece` = the records of one answer); so the
+k-th answer carries exactly the records by which the batch output over k lines extends that over k−1 lines. If a
+line fails, the answers end there and the batch runs over longer prefixes print the same records. -/
+theorem select_answers_are_batch_extensions (O : Oracles) (qy : Query) (q : SelectStmt) (hq : qy.stmt = .select q)
+    (hl : q.limit = none) (joined : List FileLine) (idx : JoinIndex)
+    (hidx : Spec.Select.joinIndexOf qy joined = .ok idx) (lines : List Line) (k : Nat) :
+    (runBatch O qy joined [readableFile (lines.take k)] none).printed =
+      ((feedLines O qy idx true lines {}).1.take k).flatMap piece := by
+  rw [runBatch_select_out O qy q hq joined _ idx hidx]
+  have h0 : reachedLimit qy ({} : LoopState).es = false := by simp [reachedLimit, hq, hl]
+  simp only [runFiles, h0, Bool.or_self, Bool.false_eq_true, if_false]
+  have := runFile_take_eq_answers O qy q hq hl idx lines k
+  split <;> exact this
+
+/-- consequence in the form of the sentence: one more line extends the batch output by the records of the answer
+for that line -/
+theorem select_kth_answer_is_batch_extension (O : Oracles) (qy : Query) (q : SelectStmt) (hq : qy.stmt = .select q)
+    (hl : q.limit = none) (joined : List FileLine) (idx : JoinIndex)
+    (hidx : Spec.Select.joinIndexOf qy joined = .ok idx) (lines : List Line) (k : Nat) (lo : LineOut)
+    (hk : (feedLines O qy idx true lines {}).1[k]? = some lo) :
+    (runBatch O qy joined [readableFile (lines.take (k + 1))] none).printed =
+      (runBatch O qy joined [readableFile (lines.take k)] none).printed ++ piece lo := by
+  rw [select_answers_are_batch_extensions O qy q hq hl joined idx hidx lines (k + 1),
+    select_answers_are_batch_extensions O qy q hq hl joined idx hidx lines k]
+  have hlt : k < (feedLines O qy idx true lines {}).1.length := by
+    rcases Nat.lt_or_ge k (feedLines O qy idx true lines {}).1.length with h | h
+    · exact h
+    · rw [List.getElem?_eq_none h] at hk; cases hk
+  rw [List.take_succ_eq_append_getElem hlt]
+  have : (feedLines O qy idx true lines {}).1[k] = lo := by
+    rw [List.getElem?_eq_getElem hlt] at hk; exact Option.some.inj hk
+  simp [this]
 
 /-! ### aggregate statements -/
 
